@@ -37,8 +37,10 @@ fn main() {
         let ymod_static: &'static str = Box::leak(ymod.clone().into_boxed_str());
         let lmod_static: &'static str = Box::leak(lmod.clone().into_boxed_str());
         let (yp2, yout2) = (yp.clone(), yout.clone());
-        let res = std::panic::catch_unwind(move || {
-            let mut lb = CTLexerBuilder::<DefaultLexerTypes<u32>>::new_with_lexemet()
+        macro_rules! build_pair_w {
+            ($t:ty) => {
+        std::panic::catch_unwind(move || {
+            let mut lb = CTLexerBuilder::<DefaultLexerTypes<$t>>::new_with_lexemet()
                 .lexer_path(&lp)
                 .output_path(&lout)
                 .mod_name(lmod_static)
@@ -94,7 +96,14 @@ fn main() {
                 ctp
             });
             lb.build().map(|_| ()).map_err(|e| e.to_string())
-        });
+        })
+            };
+        }
+        let res = match s["storaget"].as_str() {
+            Some("u16") => build_pair_w!(u16),
+            Some("u8") => build_pair_w!(u8),
+            _ => build_pair_w!(u32),
+        };
         match res {
             Ok(Ok(())) => {
                 report.push(serde_json::json!({"id": i, "built": true}));
@@ -109,6 +118,16 @@ fn main() {
             }
         }
         // glue
+        let wmod = match s["storaget"].as_str() {
+            Some("u16") => "w16",
+            Some("u8") => "w8",
+            _ => "w32",
+        };
+        let wty = match wmod {
+            "w16" => "u16",
+            "w8" => "u8",
+            _ => "u32",
+        };
         let conv = match kind.as_str() {
             "Grmtools" | "UserAction" => match s["param"].as_str() {
                 Some("u64") => format!("let (v, e) = super::__Y__::parse(&lexer, {}u64); (v, crate::conv_errors(e))", 7 + i % 5),
@@ -119,7 +138,9 @@ fn main() {
             "NoAction" => "let e = super::__Y__::parse(&lexer); (if e.is_empty() { Some(String::from(\"()\")) } else { None }, crate::conv_errors(e))".to_string(),
             _ => "let (v, e) = super::__Y__::parse(&lexer); (v.map(|t| crate::show_tree(&t)), crate::conv_errors(e))".to_string(),
         }
-        .replace("__Y__", &ymod);
+        .replace("__Y__", &ymod)
+        .replace("crate::conv_errors", &format!("crate::{wmod}::conv_errors"))
+        .replace("crate::show_tree", &format!("crate::{wmod}::show_tree"));
         // rule constants: R_<NAME>
         let mut consts = String::new();
         for r in p["rules"].as_array().unwrap() {
@@ -141,12 +162,12 @@ pub mod pair_{i} {{
     pub fn parse(input: &str) -> crate::CtOut {{
         let ld = super::{lmod}::lexerdef();
         let lexer = ld.lexer(input);
-        let lexed = crate::show_lexemes(&lexer);
+        let lexed = crate::{wmod}::show_lexemes(&lexer);
         let (v, e) = {{ {conv} }};
         crate::CtOut {{ lexed, value: v, errors: e }}
     }}
     pub fn token_epp(t: u32) -> Option<String> {{
-        super::{ymod}::token_epp(cfgrammar::TIdx(t)).map(|s| s.to_string())
+        super::{ymod}::token_epp(cfgrammar::TIdx(t as {wty})).map(|s| s.to_string())
     }}
     pub fn rule_consts() -> Vec<(&'static str, usize)> {{ vec![{consts}] }}
     pub fn token_consts() -> Vec<(&'static str, usize)> {{ vec![{tconsts}] }}
@@ -174,12 +195,19 @@ pub mod pair_{i} {{
             .map(|e| (e[0].as_str().unwrap().to_string(), e[1].as_u64().unwrap() as u32))
             .collect();
         let bf = p["settings"]["builder_flags"].clone();
-        let res = std::panic::catch_unwind(move || {
-            let mut lb = CTLexerBuilder::<DefaultLexerTypes<u32>>::new_with_lexemet()
+        let lwmod = match p["settings"]["storaget"].as_str() {
+            Some("u16") => "w16",
+            Some("u8") => "w8",
+            _ => "w32",
+        };
+        macro_rules! build_lexer_w {
+            ($t:ty) => {
+        std::panic::catch_unwind(move || {
+            let mut lb = CTLexerBuilder::<DefaultLexerTypes<$t>>::new_with_lexemet()
                 .lexer_path(&lp)
                 .output_path(&lout)
                 .mod_name(lmod_static)
-                .rule_ids_map(map)
+                .rule_ids_map(map.iter().map(|(k, v)| (k.clone(), *v as $t)).collect::<std::collections::HashMap<String, $t>>())
                 .allow_missing_terms_in_lexer(true)
                 .allow_missing_tokens_in_parser(true)
                 .show_warnings(false);
@@ -203,7 +231,14 @@ pub mod pair_{i} {{
                 }
             }
             lb.build().map(|_| ()).map_err(|e| e.to_string())
-        });
+        })
+            };
+        }
+        let res = match lwmod {
+            "w16" => build_lexer_w!(u16),
+            "w8" => build_lexer_w!(u8),
+            _ => build_lexer_w!(u32),
+        };
         match res {
             Ok(Ok(())) => report.push(serde_json::json!({"id": i, "built": true, "lexer_only": true})),
             Ok(Err(e)) => {
@@ -224,10 +259,10 @@ pub mod lex_{i} {{
     pub fn lex(input: &str) -> String {{
         let ld = super::{lmod}::lexerdef();
         let lexer = ld.lexer(input);
-        crate::show_lexemes(&lexer)
+        crate::{lwmod}::show_lexemes(&lexer)
     }}
     pub fn describe() -> String {{
-        crate::describe_lexerdef(&super::{lmod}::lexerdef())
+        crate::{lwmod}::describe_lexerdef(&super::{lmod}::lexerdef())
     }}
 }}
 "#
